@@ -4,6 +4,7 @@ CONSTANTS
  NSlots = 3  MaxStreams = 6  MaxRecs = 9
  USizes <- RichU  VSizes <- RichV  Pads <- RichP  FlagSet <- RichF
  CommonU <- SmallU  CommonV <- SmallV
+ FamStreams <- NoValues  FamBase = 3  FamGroups <- NoValues
  Volume = FALSE
  MinSteps = 12  MaxSteps = 12
 CONSTRAINT Emit
